@@ -208,7 +208,7 @@ fn strings_over(symbols: &[&str], max_len: usize) -> Vec<String> {
 }
 
 fn structured_cases(dir: PathBuf, matrix: String, tier: Tier) -> CaseSpace<String> {
-    let cases: Vec<String> = vec!["homographs-127".into(), "homographs-128".into(), "big-table".into(), "layers-15".into(), "layers-16".into(), "long-keys".into(), "escaped-keys".into()];
+    let cases: Vec<String> = vec!["homographs-127".into(), "homographs-128".into(), "big-table".into(), "layers-15".into(), "layers-16".into(), "long-keys".into(), "escaped-keys".into(), "layers-from-files".into()];
     CaseSpace {
         label: "lexicons/structured".into(),
         cases,
@@ -310,6 +310,31 @@ fn structured_cases(dir: PathBuf, matrix: String, tier: Tier) -> CaseSpace<Strin
                             Ok(d) => {
                                 let texts = vec!["あ".repeat(256), "あ".repeat(100), format!("a{}", "あ".repeat(130))];
                                 compare_lookups(&d, &layers, &texts, c, &mut o2);
+                            }
+                        }
+                    }
+                    "layers-from-files" => {
+                        // the route of the command-line tool: a configuration naming the files (relative and
+                        // absolute paths mixed, one file listed twice); dictionary numbers follow the list
+                        let a = vec![Row::new("あ", 1, 1, 100, P_NOUN), Row::new("あa", 1, 1, 101, P_NOUN)];
+                        let b = vec![Row::new("あ", 1, 1, 200, P_NOUN), Row::new("aあ", 1, 1, 201, P_NOUN), Row::new("あaa", 1, 1, 202, P_NOUN)];
+                        let sys_rows = vec![Row::new("あ", 1, 1, 1, P_NOUN), Row::new("a", 1, 1, 2, P_NOUN), Row::new("あa", 1, 1, 3, P_NOUN)];
+                        let built = (|| -> Result<Dict, String> {
+                            let sys = compile_system(&matrix, &rows_to_csv(&sys_rows))?;
+                            let plugins = bare_plugins(&pos_of(P_NOUN));
+                            let base = load(&dir, &plugins, sys.clone(), vec![])?;
+                            let ua = compile_user(&base, &rows_to_csv(&a))?;
+                            let ub = compile_user(&base, &rows_to_csv(&b))?;
+                            // user dictionaries 1..4 = a, b, a, b
+                            Ok(Arc::new(load_from_files(&dir, &plugins, &sys, &[ua.clone(), ub.clone(), ua, ub], "c04files")?))
+                        })();
+                        match built {
+                            Err(e) => o2.fail(Failure::new("build-error", format!("{}: {}", c, e))),
+                            Ok(d) => {
+                                let layers = vec![sys_rows.clone(), a.clone(), b.clone(), a.clone(), b.clone()];
+                                let texts = vec!["あaaあ".to_string(), "aあa".to_string()];
+                                compare_lookups(&d, &layers, &texts, c, &mut o2);
+                                compare_exact(&d, &layers, &vec!["あ".to_string(), "あa".to_string(), "あaa".to_string()], c, &mut o2);
                             }
                         }
                     }
